@@ -35,6 +35,10 @@ pub struct Phase {
 #[derive(Clone, Copy, Debug, PartialEq, Eq, Serialize, Deserialize)]
 pub enum AProg {
     AtomicCounter,
+    AtomicMax,
+    AtomicMin,
+    AtomicLastWrite,
+    AtomicKeyedReduce,
     KeyedCounter,
     NonAtomicCounter,
     KeyedCounterNonAtomic,
@@ -44,6 +48,10 @@ impl AProg {
     fn name(self) -> &'static str {
         match self {
             AProg::AtomicCounter => "atomic_counter",
+            AProg::AtomicMax => "atomic_max (max() in an atomic region)",
+            AProg::AtomicMin => "atomic_min (min() in an atomic region)",
+            AProg::AtomicLastWrite => "atomic_last_write (reduce in an atomic region)",
+            AProg::AtomicKeyedReduce => "atomic_keyed_reduce (keyed reduce in an atomic region)",
             AProg::KeyedCounter => "tutorial keyed_counter_service",
             AProg::NonAtomicCounter => "non_atomic_counter (control)",
             AProg::KeyedCounterNonAtomic => "tutorial keyed_counter_service_buggy (control)",
@@ -74,6 +82,10 @@ type Keyed = (
 
 struct Built {
     atomic: Single,
+    max: Single,
+    min: Single,
+    last: Single,
+    keyed_reduce: Single,
     non_atomic: Single,
     keyed: Keyed,
     keyed_buggy: Keyed,
@@ -93,6 +105,20 @@ fn build_all() -> Result<Built, SimPanic> {
             let ports = non_atomic_counter(&node);
             compile(flow.sim()).map(|c| (c, ports))
         });
+        macro_rules! single {
+            ($f:path) => {
+                s.spawn(|| {
+                    let mut flow = FlowBuilder::new();
+                    let node = flow.process::<()>();
+                    let ports = $f(&node);
+                    compile(flow.sim()).map(|c| (c, ports))
+                })
+            };
+        }
+        let m1 = single!(atomic_max);
+        let m2 = single!(atomic_min);
+        let m3 = single!(atomic_last_write);
+        let m4 = single!(atomic_keyed_reduce);
         let c = s.spawn(|| {
             let mut flow = FlowBuilder::new();
             let node = flow.process::<hydro_test::tutorials::keyed_counter::CounterServer>();
@@ -107,6 +133,10 @@ fn build_all() -> Result<Built, SimPanic> {
         });
         Ok(Built {
             atomic: a.join().unwrap()?,
+            max: m1.join().unwrap()?,
+            min: m2.join().unwrap()?,
+            last: m3.join().unwrap()?,
+            keyed_reduce: m4.join().unwrap()?,
             non_atomic: b.join().unwrap()?,
             keyed: c.join().unwrap()?,
             keyed_buggy: d.join().unwrap()?,
@@ -163,9 +193,20 @@ fn key_name(k: u8) -> String {
 fn run_script(b: &Built, c: &ACase) -> Result<Vec<Vec<(u32, usize)>>, SimPanic> {
     let mut outs: Vec<Vec<(u32, usize)>> = vec![];
     match c.prog {
-        AProg::AtomicCounter | AProg::NonAtomicCounter => {
-            let (comp, (w_send, r_send, acks, answers)) =
-                if c.prog == AProg::AtomicCounter { &b.atomic } else { &b.non_atomic };
+        AProg::AtomicCounter
+        | AProg::NonAtomicCounter
+        | AProg::AtomicMax
+        | AProg::AtomicMin
+        | AProg::AtomicLastWrite
+        | AProg::AtomicKeyedReduce => {
+            let (comp, (w_send, r_send, acks, answers)) = match c.prog {
+                AProg::AtomicCounter => &b.atomic,
+                AProg::AtomicMax => &b.max,
+                AProg::AtomicMin => &b.min,
+                AProg::AtomicLastWrite => &b.last,
+                AProg::AtomicKeyedReduce => &b.keyed_reduce,
+                _ => &b.non_atomic,
+            };
             drive_sim!(comp, &c.tape, async || {
                 let mut wid = 0u8;
                 let mut rid = 0u8;
@@ -301,9 +342,16 @@ pub fn run(ctx: &mut Ctx) {
     ctx.extra
         .insert("sim_compile_secs".into(), t0.elapsed().as_secs_f64().into());
     let execs = Cell::new(0u64);
-    let progs = [AProg::AtomicCounter, AProg::KeyedCounter];
+    let progs = [
+        AProg::AtomicCounter,
+        AProg::KeyedCounter,
+        AProg::AtomicMax,
+        AProg::AtomicMin,
+        AProg::AtomicLastWrite,
+        AProg::AtomicKeyedReduce,
+    ];
 
-    let strat_ex = (0..2usize, phase_strategy(3, tier.pick(4, 5))).prop_map(move |(p, phases)| ACase {
+    let strat_ex = (0..progs.len(), phase_strategy(3, tier.pick(4, 5))).prop_map(move |(p, phases)| ACase {
         prog: progs[p],
         phases,
         tape: None,
@@ -318,7 +366,7 @@ pub fn run(ctx: &mut Ctx) {
         return;
     }
     let strat_tape = (
-        0..2usize,
+        0..progs.len(),
         phase_strategy(5, 12),
         proptest::collection::vec(any::<u8>(), 0..500),
     )
